@@ -1,0 +1,8 @@
+//go:build !verif
+
+package basic
+
+import "sync"
+
+// Scheduling points for the deterministic simulator (build tag "verif"); no-ops otherwise.
+func verifBeforeLock(*sync.Mutex, string) {}
